@@ -243,11 +243,13 @@ func c20Body(c *run.Ctx) {
 		sw      interface{ EnabledSystemMode(bool) }
 	}
 	var atts []*att
+	var engine pokertable.TableEngine // the real engine: the adapters' reads go to it, their actions are stubbed
+	engineOf := func() pokertable.TableEngine { return engine }
 	playerID := ""
 	build := func(first *pokertable.Table) {
 		for _, k := range order {
 			a := pactor.NewActor()
-			ad := pactor.NewTableEngineAdapter(stubEngine{}, first)
+			ad := pactor.NewTableEngineAdapter(stubEngine{engineOf()}, first)
 			a.SetAdapter(ad)
 			x := &att{kind: k, adapter: ad}
 			switch k {
@@ -280,13 +282,14 @@ func c20Body(c *run.Ctx) {
 	}
 	snapshots := 0
 	fan := func(s *sim.Sim, name string, live, clone *pokertable.Table) {
+		engine = s.TE
 		if len(atts) == 0 {
 			build(live)
 		}
 		snapshots++
 		if snapshots == lateAt {
 			a := pactor.NewActor()
-			ad := pactor.NewTableEngineAdapter(stubEngine{}, live)
+			ad := pactor.NewTableEngineAdapter(stubEngine{engineOf()}, live)
 			a.SetAdapter(ad)
 			x := &att{kind: "observer", adapter: ad}
 			ob := pactor.NewObserverRunner()
@@ -361,8 +364,12 @@ func c20Body(c *run.Ctx) {
 				}
 			}
 			// what the adapter itself hands out (GetGameState) is the actor's copy as well
-			if ags := x.adapter.GetGameState(); ags != nil && gs != nil {
-				if ags == gs {
+			if ags := x.adapter.GetGameState(); ags != nil {
+				var egs *pokerface.GameState
+				if g := s.TE.GetGame(); g != nil {
+					egs = g.GetGameState()
+				}
+				if ags == gs || ags == egs {
 					report("C20.shared-with-engine", fmt.Sprintf("the adapter of actor %d (%s) hands out the engine's own hand state object", i, x.kind))
 					return
 				}
